@@ -227,6 +227,8 @@ func runC09(p *core.Program, r *core.Report) {
 	for _, f := range all {
 		r.Functions[p.FuncName(f)] = true
 	}
+	stateInventory(c, "trie", "Trie", []string{"q", "root", "mu", "n"}, all)
+	stateInventory(c, "trie", "node", []string{"Item", "left", "mid", "right", "c", "isValid"}, all)
 	isValidLoad := func(v ssa.Value) (ssa.Value, bool) {
 		u, ok := v.(*ssa.UnOp)
 		if !ok || u.Op != token.MUL {
